@@ -201,7 +201,7 @@ def _injective(w: cidx.Write, psym):
 
 
 def _r13c(rep, tus):
-    rep.rule("R13c", "every '#ifdef _OPENMP' block holds only pragmas / omp.h / the two capability functions, and each 'if (use_openmp) {parallel} else {serial}' twin calls the same callee with arguments equal after (ij / N, ij % N) -> (i, j)", 15)
+    rep.rule("R13c", "every '#ifdef _OPENMP' block holds only pragmas / omp.h / the two capability functions, and each 'if (use_openmp) {parallel} else {serial}' twin calls the same callee with arguments equal after (ij / N, ij % N) -> (i, j), or -- in any other spelling -- with the same enumerated index tuples for small extents", 15)
     n_blocks = 0
     for tu in tus:
         for b in cast.pp_blocks(core.read(tu.rel)):
@@ -249,6 +249,14 @@ def _r13c(rep, tus):
                     ser_loops = [f for f in cast.walk(ks[2]) if f.get("kind") == "ForStmt"]
                     par_loops = [f for f in cast.walk(ks[1]) if f.get("kind") == "ForStmt"]
                     ok, why = _twin_args(pa, sa, par_loops, ser_loops)
+                    if not ok:
+                        # the arms may still visit the same index tuples in another spelling (a continue under j < i
+                        # against a triangular bound, exchanged roles of / and %): compare the enumerated calls
+                        sem = _twin_enum(fn, ks[1], ks[2])
+                        if sem is True:
+                            ok, why = True, ""
+                        elif isinstance(sem, str):
+                            why = sem
                 rep.instance("R13c", tu.rel, name, f"if (use_openmp) twin calling {cast.callee_name(par_calls[0]) if par_calls else '?'}", ok,
                              f"parallel and serial arms differ: {why}", line=tu.line(x))
     if n_twins < 4:
@@ -273,6 +281,38 @@ def _loop_hdr(f):
     hi = cast.text(cast.kids(cond)[1]) if isinstance(cond, dict) and cond.get("kind") == "BinaryOperator" else None
     lo = cast.text(cast.kids(init)[1]) if var else None
     return var, lo, hi, cond.get("opcode") if isinstance(cond, dict) else None
+
+
+def _twin_enum(fn, par, ser):
+    """True when both arms call the same callee with the same multiset of integer arguments (and textually equal other
+    arguments) for every small extent; a message when they provably differ; None when the arms cannot be enumerated"""
+    from engine import cenum
+
+    ints = [p_.get("name") for p_ in cast.params(fn) if "*" not in cast.qtype(p_) and "[" not in cast.qtype(p_) and cast.is_int_type(cast.qtype(p_))]
+    try:
+        for base in (1, 2, 3):
+            env = {nm: base + (k_ % 2) for k_, nm in enumerate(ints)}
+            a = cenum.enumerate_stmt(par, env, where="parallel arm")
+            b = cenum.enumerate_stmt(ser, env, where="serial arm")
+            ca = sorted((c_, tuple(-1 if v is None else v for v in args)) for c_, args in a.calls)
+            cb = sorted((c_, tuple(-1 if v is None else v for v in args)) for c_, args in b.calls)
+            if ca != cb:
+                only_a = [x for x in ca if x not in cb][:2]
+                only_b = [x for x in cb if x not in ca][:2]
+                return f"with integer parameters {env} the parallel arm makes {len(ca)} calls and the serial arm {len(cb)}; only parallel: {only_a}; only serial: {only_b}"
+    except AnalysisError:
+        return None
+    # the arguments that are not integers must be the same expressions
+    pc = [c for c in cast.walk(par) if c.get("kind") == "CallExpr"]
+    sc = [c for c in cast.walk(ser) if c.get("kind") == "CallExpr"]
+    if len(pc) != 1 or len(sc) != 1:
+        return None
+    for x, y in zip(cast.call_args(pc[0]), cast.call_args(sc[0])):
+        if cast.is_int_type(cast.qtype(cast.strip(x))) and cast.is_int_type(cast.qtype(cast.strip(y))):
+            continue
+        if re.sub(r"\s+", "", cast.text(x)) != re.sub(r"\s+", "", cast.text(y)):
+            return f"argument '{cast.text(x)}' vs '{cast.text(y)}'"
+    return True
 
 
 def _twin_args(pa, sa, par_loops, ser_loops):
@@ -654,7 +694,8 @@ def selftest():
     n("omp: reorder private list", "c/phonopy.c", "private(k, g_addr, gp, address_double)", "private(address_double, gp, k, g_addr)")
     n("omp: rename parallel loop variable use (schedule clause)", "c/phonopy.c", "#pragma omp parallel for private(j, k, f)", "#pragma omp parallel for schedule(static) private(j, k, f)")
     # R13c
-    b("twin: parallel arm passes swapped (i, j)", "c/dynmat.c", "multiply_borns_at_ij(dd, ij / num_patom, ij % num_patom, dd_in,", "multiply_borns_at_ij(dd, ij % num_patom, ij / num_patom, dd_in,", "R13c", "multiply_borns_at_ij")
+    n("twin: parallel arm visits the pairs column by column", "c/dynmat.c", "multiply_borns_at_ij(dd, ij / num_patom, ij % num_patom, dd_in,", "multiply_borns_at_ij(dd, ij % num_patom, ij / num_patom, dd_in,")
+    b("twin: parallel arm passes the row index twice", "c/dynmat.c", "multiply_borns_at_ij(dd, ij / num_patom, ij % num_patom, dd_in,", "multiply_borns_at_ij(dd, ij / num_patom, ij / num_patom, dd_in,", "R13c", "multiply_borns_at_ij")
     b("serial build compiles different code", "c/phonopy.c", "#ifdef _OPENMP\n#pragma omp parallel for private(j, k, f)\n#endif", "#ifdef _OPENMP\n    num_bands_dummy();\n#pragma omp parallel for private(j, k, f)\n#endif", "R13c", "#ifdef _OPENMP")
     # R13e
     b("KB last digits", "c/phonopy.c", "#define KB 8.6173382568083159E-05", "#define KB 8.6173382568083159E-06", "R13e", "KB")
